@@ -168,4 +168,51 @@ theorem regroup_get' {γ : Type} : ∀ (spans : List Nat) (xs : List γ) (k : Na
       have hk : k < r.length := by simpa using h
       simp [regroup, ih (xs.drop s) k hk, List.drop_drop]
 
+section textonly
+variable {α β : Type} [DecidableEq α]
+
+theorem mergeStep_fst_indep {γ : Type} (acc : List α × List β) (acc' : List α × List γ) (p : List α × List β) (p' : List α × List γ)
+    (ha : acc.1 = acc'.1) (hp : p.1 = p'.1) : (mergeStep acc p).1 = (mergeStep acc' p').1 := by
+  simp [mergeStep, ha, hp]
+
+theorem foldl_mergeStep_fst_indep {γ : Type} : ∀ (ps : List (List α × List β)) (ps' : List (List α × List γ))
+    (acc : List α × List β) (acc' : List α × List γ), acc.1 = acc'.1 → ps.map (·.1) = ps'.map (·.1) →
+    (ps.foldl mergeStep acc).1 = (ps'.foldl mergeStep acc').1 := by
+  intro ps
+  induction ps with
+  | nil => intro ps' acc acc' ha h; cases ps' with
+    | nil => simpa using ha
+    | cons _ _ => simp at h
+  | cons p ps ih =>
+    intro ps' acc acc' ha h
+    cases ps' with
+    | nil => simp at h
+    | cons p' ps' =>
+      simp only [List.map_cons, List.cons.injEq] at h
+      simp only [List.foldl_cons]
+      exact ih ps' _ _ (mergeStep_fst_indep acc acc' p p' ha h.1) h.2
+
+theorem mergeAll_text_indep {γ : Type} (parts : List (List α × List β)) (parts' : List (List α × List γ))
+    (h : parts.map (·.1) = parts'.map (·.1)) : (mergeAll parts).map (·.1) = (mergeAll parts').map (·.1) := by
+  unfold mergeAll
+  cases parts with
+  | nil => cases parts' with
+    | nil => rfl
+    | cons _ _ => simp at h
+  | cons p ps =>
+    cases parts' with
+    | nil => simp at h
+    | cons p' ps' =>
+      simp only [List.map_cons, List.cons.injEq] at h
+      simp only [List.map_cons, Option.map_some, Option.some.injEq]
+      apply foldl_mergeStep_fst_indep
+      · simpa [shrink] using h.1
+      · have hs : ∀ (δ : Type) (l : List (List α × List δ)), (l.map shrink).map (·.1) = l.map (·.1) := by
+          intro δ l; induction l with
+          | nil => rfl
+          | cons x xs ih => simp [shrink, ih]
+        rw [hs, hs]; exact h.2
+
+end textonly
+
 end Merge
